@@ -25,6 +25,20 @@ func newDedup() *middleware.Deduplicator {
 	return &middleware.Deduplicator{KeyFactory: middleware.NewMessageHasherSHA256(64), Repository: kr, Timeout: time.Second}
 }
 
+// the ways a Deduplicator is configured: everything given; the zero value and the nil pointer (every default:
+// Adler-32 hasher over the whole payload, in-memory repository with a one-minute window)
+var configurations = []string{"explicit", "zero-value", "nil"}
+
+func dedupFor(cfg int) *middleware.Deduplicator {
+	switch configurations[cfg] {
+	case "zero-value":
+		return &middleware.Deduplicator{}
+	case "nil":
+		return nil
+	}
+	return newDedup()
+}
+
 // ---- (a) concurrent arrivals ------------------------------------------------------------------------------
 
 // payloads[i] is the payload presented by goroutine i (equal payload = same key)
@@ -37,7 +51,7 @@ func concScenario(payloads []string, decorator bool, c int, dpor bool) *explore.
 		name += p
 	}
 	return &explore.Scenario{Name: name, C: c, DPOR: dpor, Body: func() {
-		d := newDedup()
+		d := dedupFor(vs.Choose(len(configurations), 0, "configuration"))
 		invoked := map[string]int{}
 		passed := make([]bool, len(payloads))
 		inner := hx.NewScriptPub("inner")
@@ -110,7 +124,7 @@ func concScenario(payloads []string, decorator bool, c int, dpor bool) *explore.
 // Sequential Publish calls with batches over the keys {A,B,C}: every batch shape up to length 3, two calls.
 func batchScenario(maxLen int) *explore.Scenario {
 	return &explore.Scenario{Name: fmt.Sprintf("batch/decorator/len%d", maxLen), C: -1, DataOnly: true, Body: func() {
-		d := newDedup()
+		d := dedupFor(vs.Choose(len(configurations), 0, "configuration"))
 		inner := hx.NewScriptPub("inner")
 		dec, err := d.PublisherDecorator()(inner)
 		if err != nil {
